@@ -1,6 +1,8 @@
 package iso9660
 
 import (
+	"os"
+
 	"github.com/diskfs/go-diskfs/backend"
 	"github.com/diskfs/go-diskfs/internal/vp"
 	"github.com/diskfs/go-diskfs/internal/vp/vpdev"
@@ -38,9 +40,12 @@ func VP_C12_iso_range_finalize() {
 	vp.Assume(size >= 1<<20)
 	vp.Assume(size <= 1<<40)
 	dev := &c12FinalDev{MemDev: vpdev.NewMemDev("disk", -1), start: start, size: size}
-	// the state iso9660.Create(dev, size, start, 2048, dir) returns (Create itself stats the directory)
-	fs := &FileSystem{workspace: "/vp-c12-workspace", start: start, size: size, backend: dev, volumes: volumeDescriptors{}, blocksize: 2048}
-	err := fs.Finalize(FinalizeOptions{})
+	// the real Create on an existing (empty) workspace directory
+	ws := "/tmp/vp-c12-workspace"
+	_ = os.MkdirAll(ws, 0o755)
+	fs, err := Create(dev, size, start, 2048, ws)
+	vp.Assert(err == nil, "Create accepts the range")
+	err = fs.Finalize(FinalizeOptions{})
 	if err != nil {
 		vp.Cover("Finalize refused before writing")
 		return
